@@ -7,12 +7,10 @@
    at an earlier position of one WriteMessages call or in an earlier call (sync or Async).
    The model's Call step requires g's previous call to have returned: successive calls.
 
-   s_late s = false excludes the one interleaving in which the property does NOT hold in the
-   code as it is: a batchMessages that runs after Close emptied w.writers (defect F3, see
-   Properties/C09.v) creates a second partition writer for the same partition whose sender runs
-   concurrently with the old one. *)
+   (batchMessages re-checks w.closed under w.mutex — fix of defect F3 — so no partition writer
+   is created after Close and a partition is served by one partition writer in every run.) *)
 From Coq Require Import List NArith Bool Arith.
-From KV Require Import Lib.LTS Model.Writer Proofs.WriterStmts Proofs.WriterC07 Proofs.WriterC07F3 Proofs.WriterHolds7.
+From KV Require Import Lib.LTS Model.Writer Proofs.WriterStmts Proofs.WriterC07 Proofs.WriterHolds7.
 Import ListNotations.
 
 (* Every copy of an earlier batch precedes every copy of a later one: if no produce request
@@ -21,7 +19,7 @@ Import ListNotations.
    together on a retry, so their copies interleave as blocks; their relative order inside
    each block is C07_batch_internal_order.) *)
 Theorem C07_order :
-  forall cfg ls s, cfg_ok cfg -> run (step cfg) init ls = Some s -> s_late s = false ->
+  forall cfg ls s, cfg_ok cfg -> run (step cfg) init ls = Some s ->
   forall g tp m1 m2, submitted_before cfg s g tp m1 m2 ->
     (forall a, In a (s_journal s) -> ~ (In m1 (a_msgs a) /\ In m2 (a_msgs a))) ->
     forall i j, nth_error (log_of s tp) i = Some m1 -> nth_error (log_of s tp) j = Some m2 -> i < j.
@@ -38,46 +36,25 @@ Print Assumptions C07_batch_internal_order.
 
 (* All attempts of batch k of a partition writer precede all attempts of batch k+1 in the
    broker's journal; the attempts of one batch carry identical records to the same partition;
-   and (without F3) a topic-partition is served by one partition writer. *)
+   and a topic-partition is served by one partition writer. *)
 Theorem C07_retries_contiguous :
   forall cfg ls s, run (step cfg) init ls = Some s ->
   forall i j a b, nth_error (s_journal s) i = Some a -> nth_error (s_journal s) j = Some b ->
     (a_pw a = a_pw b -> a_k a < a_k b -> i < j) /\
     (a_pw a = a_pw b -> a_k a = a_k b -> a_msgs a = a_msgs b /\ a_tp a = a_tp b) /\
-    (s_late s = false -> a_tp a = a_tp b -> a_pw a = a_pw b).
+    (a_tp a = a_tp b -> a_pw a = a_pw b).
 Proof. exact C07_retries_contiguous_proof. Qed.
 Print Assumptions C07_retries_contiguous.
 
 (* The extracted boolean predicate that the correspondence run evaluates on every recorded
    real history (per goroutine and partition: the applied produce requests, projected on the
    goroutine's submission ranks, are increasing blocks, each a copy of the previous one or
-   entirely after it) is true on every run of the model without the late Assign. *)
+   entirely after it) is true on every run of the model. *)
 Theorem C07_holds_for_on_runs :
-  forall cfg ls s g tp, run (step cfg) init ls = Some s -> s_late s = false ->
+  forall cfg ls s g tp, run (step cfg) init ls = Some s ->
     C07_holds_for cfg (s_calls s) (s_journal s) g tp = true.
 Proof. exact C07_holds_for_runs. Qed.
 Print Assumptions C07_holds_for_on_runs.
-
-(* The property at full strength (every schedule, also batchMessages after Close). *)
-Definition C07_order_full_statement : Prop :=
-  forall cfg ls s, cfg_ok cfg -> run (step cfg) init ls = Some s ->
-  forall g tp m1 m2, submitted_before cfg s g tp m1 m2 ->
-    (forall a, In a (s_journal s) -> ~ (In m1 (a_msgs a) /\ In m2 (a_msgs a))) ->
-    forall i j, nth_error (log_of s tp) i = Some m1 -> nth_error (log_of s tp) j = Some m2 -> i < j.
-
-(* It is refuted by the code as it is, through the same interleaving as defect F3 (C09): an
-   Async writer, goroutine 1 submits m1 (batched), then m2 in a call that passed enter() before
-   Close; Close flushes and closes the partition writer; the late batchMessages creates a
-   second partition writer for the partition, which produces m2 before the first produces m1.
-   (C07_order above is therefore stated with s_late s = false.) *)
-Theorem C07_order_refuted_when_late :
-  exists cfg ls s g tp m1 m2 i j,
-    cfg_ok cfg /\ run (step cfg) init ls = Some s /\ s_late s = true /\
-    submitted_before cfg s g tp m1 m2 /\
-    (forall a, In a (s_journal s) -> ~ (In m1 (a_msgs a) /\ In m2 (a_msgs a))) /\
-    nth_error (log_of s tp) i = Some m1 /\ nth_error (log_of s tp) j = Some m2 /\ j < i.
-Proof. exact C07_order_refuted_when_late_proof. Qed.
-Print Assumptions C07_order_refuted_when_late.
 
 (* ---- non-vacuity: BatchSize 1, MaxAttempts 3; goroutine 1 submits m1, m2 (two batches) in one
    call; batch 0 loses its acknowledgement (applied, error 7 retriable) and is retried while
@@ -88,10 +65,26 @@ Definition ex_run : list label :=
   [Call 1 [ex_m 1; ex_m 2] None; Assign 0; Get 0; Attempt 0 (AppliedLost 7%N); BackoffDone 0;
    Attempt 0 AppliedAcked; Finish 0; Get 0; Attempt 0 AppliedAcked; Finish 0].
 Example C07_nonvacuous :
-  exists s, run (step ex_cfg) init ex_run = Some s /\ s_late s = false /\
+  exists s, run (step ex_cfg) init ex_run = Some s /\
             submitted_before ex_cfg s 1 (0%N, 0%N) (ex_m 1) (ex_m 2) /\
             map m_id (log_of s (0%N, 0%N)) = [1%N; 1%N; 2%N].
 Proof.
-  eexists. split; [vm_compute; reflexivity|]. split; [reflexivity|]. split; [|vm_compute; reflexivity].
+  eexists. split; [vm_compute; reflexivity|]. split; [|vm_compute; reflexivity].
   exists [], [], []. vm_compute. reflexivity.
+Qed.
+
+(* the interleaving that used to break the order (defect F3, fixed): Async, call 0 = [m1] is
+   batched; call 1 = [m2] passes enter(); Close; call 1's batchMessages now fails with
+   ErrClosedPipe and m2 is never sent. *)
+Definition ex_cfg2 : config := mkCfg 1 100 1 true (Some 0%N) (fun _ => false).
+Definition ex_run2 : list label :=
+  [Call 1 [ex_m 1] None; Assign 0; Return 0; Call 1 [ex_m 2] None; CloseMark; Assign 1;
+   Get 0; Attempt 0 AppliedAcked; Finish 0; Timer 0 0; SenderExit 0; CloseWaitDone].
+Example C07_late_call_rejected :
+  exists s, run (step ex_cfg2) init ex_run2 = Some s /\
+            map c_ph (s_calls s) = [CReturned RNil; CReturned (RErr EClosed)] /\
+            map m_id (log_of s (0%N, 0%N)) = [1%N] /\ s_close s = ClReturned.
+Proof.
+  eexists. split; [vm_compute; reflexivity|]. split; [vm_compute; reflexivity|].
+  split; vm_compute; reflexivity.
 Qed.
